@@ -196,6 +196,30 @@ def failClass : Fail → String
   | .errSize => "size" | .errArity => "arity" | .panicZeroValue => "zerovalue" | .panicAssign => "assign"
   | .panicIContext => "icontext" | .panicElem => "elem" | .unmodelled => "unmodelled" | .panicNilCast => "nilderef"
 
+def parseGroup (tbl : Tbl) (fuel : Nat) : P PairRet
+  | "one" :: r => do
+    let (b, r') ← parseBox tbl fuel r
+    pure (.one b, r')
+  | "list" :: n :: r => do
+    let k ← n.toNat?
+    let (bs, r') ← parseBoxes tbl fuel k r
+    pure (.list bs, r')
+  | _ => none
+
+def parseGroups (tbl : Tbl) (fuel : Nat) : Nat → P (List PairRet)
+  | 0, toks => some ([], toks)
+  | k + 1, toks => do
+    let (g, r) ← parseGroup tbl fuel toks
+    let (gs, r') ← parseGroups tbl fuel k r
+    pure (g :: gs, r')
+
+def callStr (tbl : Tbl) : CallRes → String
+  | .cfgPanic e => "cfgpanic:" ++ failClass e
+  | .cfgReturnsMismatch => "cfgpanic:returns"
+  | .callPanic => "callpanic:assign"
+  | .callUnmodelled => "cfgok call=unmodelled"
+  | .got rs => String.intercalate " " ("got" :: rs.map (desc tbl))
+
 def splitTrailer (toks : List String) : List String × List String :=
   (toks.takeWhile (· ≠ ";;"), toks.dropWhile (· ≠ ";;"))
 
@@ -232,6 +256,24 @@ def run (toks : List String) : Option String := do
     match I2V K objs types (variadic == "1") with
     | .error e => pure (failStr e)
     | .ok vs => pure (String.intercalate " " (["ok", toString vs.length] ++ vs.map (desc tbl)))
+  | "c09.matches" :: nt :: rest =>
+    let k ← nt.toNat?
+    let (types, r1) ← parseTypes tbl k rest
+    let (g, r2) ← parseGroup tbl fuel r1
+    if !r2.isEmpty then none else
+    pure (callStr tbl (matchesE2E K g types))
+  | "c09.seq" :: nt :: rest =>
+    let k ← nt.toNat?
+    let (types, r1) ← parseTypes tbl k rest
+    let ng ← r1.head?
+    let n ← ng.toNat?
+    let (gs, r2) ← parseGroups tbl fuel n r1.tail
+    if !r2.isEmpty || n == 0 then none else
+    match seqConfigure K types gs with
+    | .error e => pure ("cfgpanic:" ++ failClass e)
+    | .ok stored =>
+      if stored.any (fun vs => vs.any (fun v => !v.wellFlagged)) then pure "cfgok call=unmodelled" else
+      pure (String.intercalate " | " ((List.range (n + 1)).map (fun i => callStr tbl (seqCall stored types i))))
   | lane :: nt :: rest =>
     if lane == "c09.ret" || lane == "c09.eval" then
       let k ← nt.toNat?
